@@ -130,7 +130,11 @@ func genCase(g *vlib.Rng, idx int) caseT {
 		keys[i] = keyPool[g.Intn(len(keyPool))]
 	}
 	key := func() string { return itoa(keys[g.Intn(nk)]) }
-	big := 2
+	big := 0
+	if g.Chance(1, 4) {
+		big = 2
+		r.Hit("case:with-64KiB-values")
+	}
 	nops := 10 + g.Intn(31)
 	lines := []string{genOpen(g)}
 	for i := 0; i < nops; i++ {
